@@ -3,6 +3,7 @@
 package validator
 
 import (
+	"fmt"
 	"strings"
 
 	"github.com/aml-org/amf-custom-validator/internal/generator"
@@ -38,7 +39,7 @@ func VerifC08Splice() {
 	for i := 0; i < n; i++ {
 		v.Assume(code[i] != '$' && code[i] != '\n' && code[i] < 0x80)
 	}
-	pos := v.Choice("position", 8)
+	pos := v.Choice("position", 9)
 	prof := profile.NewProfile()
 	prof.Name = "t"
 	prof.Prefixes = profile.ProfileContext{"ex": "http://example.org/"}
@@ -67,8 +68,33 @@ func VerifC08Splice() {
 		value = verifRegoRule(code, false, "m").Negate()
 	case 6: // operand of or
 		value = profile.NewOr(false, []profile.Rule{atom, verifRegoRule(code, false, "m")})
-	default: // condition of if/then
+	case 7: // condition of if/then
 		value = profile.NewConditional(false, verifRegoRule(code, false, "m"), atom)
+	default: // one constraint of one alternative of a wide or (four or six alternatives of two constraints each)
+		width := []int{4, 6}[v.Choice("orWidth", 2)]
+		at, first := v.Choice("alternative", width), v.Bool("first")
+		var alts []profile.Rule
+		for k := 0; k < width; k++ {
+			a1 := profile.VerifMinCount(x, mustVerifPath(fmt.Sprintf("ex.p%d", 2*k)), 1)
+			a2 := profile.VerifMinCount(x, mustVerifPath(fmt.Sprintf("ex.p%d", 2*k+1)), 1)
+			pair := []profile.Rule{a1, a2}
+			if k == at {
+				// two embedded constraints on two properties: the one under test sorts before or after the other
+				mine, other := "ex.a", "ex.z"
+				if !first {
+					mine, other = other, mine
+				}
+				rule := func(c, on string) profile.Rule {
+					return profile.RegoRule{
+						AtomicStatement: profile.AtomicStatement{BaseStatement: profile.BaseStatement{Name: "rego"}, Variable: profile.Variable{Name: "x"}, Path: mustVerifPath(on)},
+						Message:         "m", Argument: c,
+					}
+				}
+				pair = []profile.Rule{rule(code, mine), rule("$result = true", other)}
+			}
+			alts = append(alts, profile.NewAnd(false, pair))
+		}
+		value = profile.NewOr(false, alts)
 	}
 	prof.Violation = []profile.Rule{profile.TopLevelExpression{
 		Expression:     profile.Expression{BaseStatement: profile.BaseStatement{Name: "v1"}, Variable: &x, Value: value},
@@ -84,4 +110,13 @@ func VerifC08Splice() {
 	v.Assert("C08.gate-used", v.RegoNewCount() == 1)
 	v.Assert("C08.module-is-code", v.RegoNewOption(0, "module.code") == unit.Code)
 	v.Assert("C08.denylist-complete", verifGateOK(0))
+}
+
+
+func mustVerifPath(text string) path.PropertyPath {
+	p, err := path.ParsePath(text)
+	if err != nil {
+		panic(err)
+	}
+	return p
 }
